@@ -120,7 +120,19 @@ func c09Exec(c fw.Case) *fw.Result {
 		res.Violatef(key+"/err", "scan of a valid file failed: %v", err)
 	}
 	termFull := s.FullyScannedBytes()
+	termPrev := s.PreviousFullyScannedBytes()
 	s.Close()
+	if k == len(want) && len(want) > 0 && !res.Failed() {
+		// after the terminal Scan()==false the offset may have advanced over trailing empty
+		// blocks, but it can never point before the block of the last returned object
+		last := want[len(want)-1].Block
+		if termFull < lay.Start[last] || termFull > int64(len(data)) {
+			res.Violatef(key+"/terminal-full", "after the terminal Scan()==false FullyScannedBytes=%d lies before the block of the last returned object (starts at %d) or beyond the input (%d bytes)", termFull, lay.Start[last], len(data))
+		}
+		if termPrev < prevOf(last) || termPrev > termFull {
+			res.Violatef(key+"/terminal-previous", "after the terminal Scan()==false PreviousFullyScannedBytes=%d, expected between %d and the current offset %d", termPrev, prevOf(last), termFull)
+		}
+	}
 	if k != len(want) && !res.Failed() {
 		res.Violatef(key+"/count", "scan delivered %d objects, want %d", k, len(want))
 	}
